@@ -108,7 +108,7 @@ GP_STAGES = ["load_ff_library", "split_seq_string", "complement_dsDNA", "MapToMo
 
 @condition("C20.gen_params",
            anchors=["polyply.src.gen_itp:gen_params"],
-           rejects=(), selector_only=True, must_cover=["failed", "succeeded", "backup made", "dsdna", "output name without .itp suffix"],
+           rejects=(), selector_only=True, must_cover=["failed", "succeeded", "backup made", "dsdna", "output name without .itp suffix", "later flush after a failure"],
            stubs=["each stage function of gen_params is wrapped; the wrapper of stage k raises before the stage runs", "apply_links.tqdm, gen_dna.tqdm -> silent"],
            outside=["process kill / power loss", "a later call in the same process flushing the temporary file a failed call left registered in vermouth's singleton writer (observed, not claimed)"],
            cfg={"path_timeout_s": 120},
@@ -182,6 +182,16 @@ def gen_params_cond(sx, B):
         sx.cover("failed" if failed else "succeeded")
         if not failed and present:
             sx.cover("backup made")
+        if failed and k <= 6:
+            # as in C20.gen_coords: a later run's flush of the process-wide writer finds nothing staged by a run that failed early
+            DeferredFileWriter().write()
+            sx.cover("later flush after a failure")
+            late = snapshot_dir(d)
+            if dsdna:
+                late.setdefault("s.ig", before.get("s.ig"))
+            sx.claim({k2: v for k2, v in late.items() if k2 != "s.ig"} == {k2: v for k2, v in before.items() if k2 != "s.ig"},
+                     "the flush of a later run in the same process does not bring output of the failed run into place",
+                     lambda: "created %r" % sorted(set(late) - set(before)))
         check_outcome(sx, d, oname, before, failed, present, nb,
                       lambda text: "[ moleculetype ]" in text and text.count("\n") > 10 and "[ bonds ]" in text)
     finally:
@@ -196,10 +206,11 @@ GC_STAGES = ["read topology", "connectivity gate", "build file", "start nodes", 
 
 @condition("C20.gen_coords",
            anchors=["polyply.src.gen_coords:gen_coords"],
-           rejects=(), selector_only=True, must_cover=["failed", "succeeded", "backup made", "with options"],
+           rejects=(), selector_only=True, must_cover=["failed", "succeeded", "backup made", "with options", "later flush after a failure"],
            stubs=["each stage of gen_coords is wrapped; the wrapper of stage k raises before (or, for serialisation, also after) the stage runs",
                   "build_system.tqdm -> silent"],
-           outside=["process kill / power loss", "failures inside the final deferred flush itself"],
+           outside=["process kill / power loss", "failures inside the final deferred flush itself",
+                    "a later flush after a failure between serialisation and the flush (stage 10): the staged record stays registered in vermouth's singleton writer (observed, not claimed)"],
            cfg={"path_timeout_s": 300},
            bounds={"quick": dict(backups=[0, 1]), "thorough": dict(backups=[0, 1, 2])},
            budget={"quick": 280, "thorough": 1200})
@@ -268,6 +279,14 @@ def gen_coords_cond(sx, B):
         sx.cover("failed" if failed else "succeeded")
         if not failed and present:
             sx.cover("backup made")
+        if failed and k <= 9:
+            # history inside one process: the next successful polyply run flushes vermouth's process-wide deferred writer; a run
+            # that failed before serialisation began must not have staged anything that this flush brings into place
+            DeferredFileWriter().write()
+            sx.cover("later flush after a failure")
+            late = snapshot_dir(d)
+            sx.claim(late == before, "the flush of a later run in the same process does not bring output of the failed run into place",
+                     lambda: "created %r, changed %r" % (sorted(set(late) - set(before)), sorted(k2 for k2 in before if k2 in late and late[k2] != before[k2])))
         check_outcome(sx, d, "out.gro", before, failed, present, nb,
                       lambda text: len(text.split("\n")) >= 6 + 3 and text.split("\n")[1].strip() == "6")
     finally:
